@@ -1,6 +1,7 @@
 package main
 
 import (
+	"strconv"
 	"strings"
 
 	"vlib"
@@ -158,6 +159,41 @@ func sweepLenAndSum(R *vlib.Out, prop string) {
 			checkSer(R, prop, t, nil, []*pop{{Entries: entries}, leaf("after")}, nil)
 		}
 		R.Bounds["identical_neighbour_entries"] = len(cases)
+	}
+	// many entries: a group with 13, 30 and 70 entries whose optional nested groups are all absent, and one with
+	// a populated nested group in every entry (a counter that is meant to track nesting but counts look-ups
+	// overflows its limit on a flat message)
+	{
+		kids := []*node{{Kind: 'k', Tag: "55", Typ: "String"}}
+		for _, gt := range []string{"711", "555", "454", "864", "146"} {
+			kids = append(kids, &node{Kind: 'g', Tag: gt, Kids: []*node{{Kind: 'k', Tag: "3" + gt, Typ: "Int"}}})
+		}
+		t := &tmpl{BS: "8", BL: "9", MT: "35", CS: "10", Begin: "FIX.4.4", MsgType: "0", Hdr: []*node{},
+			Body: []*node{{Kind: 'g', Tag: "268", Kids: kids}}, Trl: []*node{}}
+		ci := 0
+		for _, n := range []int{13, 30, 70} {
+			for _, nested := range []bool{false, true} {
+				ci++
+				if !vlib.Mine(ci) {
+					continue
+				}
+				var entries [][]*pop
+				for e := 0; e < n; e++ {
+					ent := []*pop{{Set: true, Val: "s" + strconv.Itoa(e), Route: 'c'}}
+					for k := 0; k < 5; k++ {
+						if nested && k == e%5 {
+							ent = append(ent, &pop{Entries: [][]*pop{{{Set: true, Val: strconv.Itoa(e), Route: 'c'}}}})
+						} else {
+							ent = append(ent, &pop{})
+						}
+					}
+					entries = append(entries, ent)
+				}
+				t.Unit = 5000000 + ci
+				checkSer(R, prop, t, nil, []*pop{{Entries: entries}}, nil)
+			}
+		}
+		R.Bounds["many_entries"] = "13, 30, 70 entries x 5 optional nested groups (absent / one populated per entry)"
 	}
 	// float sweep: results of ordinary arithmetic need 16 or 17 significant digits (i*0.1, i/7, i*1.1, prices with
 	// an accumulated error); a hand-written fast path of the parser is wrong for some of them by one unit in the
